@@ -33,7 +33,7 @@ def _extends(prog, f, term):
     changed).  Returns X, or None when `term` is not of that shape."""
     import ast
 
-    if not (term[0] == "call" and term[1][0] == "closure" and len(term[2]) == 1 and not term[3] and term[2][0][0] in ("closure", "ref")):
+    if not (term[0] == "call" and term[1][0] == "closure" and len(term[2]) == 1 and not term[3] and (term[2][0][0] in ("closure", "ref") or T.is_call_to(term[2][0], "functools.partial"))):
         return None
     w = P.nested_function(prog, f, term[1][1].rsplit(".", 1)[-1])
     if w is None or len(w.params) != 1:
@@ -601,6 +601,28 @@ def r18_6(prog, rep):
         rep.check(not mut, "R18.6", f.qualname, f.loc, "does not mutate its argument", f"mutates its argument: {mut[:2]}")
 
 
+def _assigned_values(prog, f, name):
+    """The expressions a local of `f` is assigned from -- also when it is one of several results of a private helper of the
+    module (`a, b, params = _discover(tp)`): then the helper's body stands for the value."""
+    import ast
+
+    out = []
+    for n in ast.walk(f.node):
+        if not isinstance(n, (ast.Assign, ast.AnnAssign)) or n.value is None:
+            continue
+        tgs = n.targets if isinstance(n, ast.Assign) else [n.target]
+        for tg in tgs:
+            if isinstance(tg, ast.Name) and tg.id == name:
+                out.append(n.value)
+            elif isinstance(tg, (ast.Tuple, ast.List)) and any(isinstance(e, ast.Name) and e.id == name for e in tg.elts):
+                out.append(n.value)
+                if isinstance(n.value, ast.Call):
+                    callee = prog.functions.get(prog.resolve_expr_name(f.module, n.value.func) or "")
+                    if callee is not None and callee.module is f.module and callee.name.startswith("_"):
+                        out.append(callee.node)
+    return out
+
+
 def fields_the_instance_answers_to(prog, rep, rule="R18.13"):
     """For a class without public annotations the fields are what its instances hold (slots, instance dict) -- and what they
     *answer to*: a constructor parameter exposed through a property over private state is a field (its value is needed to
@@ -637,7 +659,7 @@ def fields_the_instance_answers_to(prog, rep, rule="R18.13"):
                         guarded = any(isinstance(c, ast.Call) and isinstance(c.func, ast.Name) and c.func.id == "hasattr" and [ast.unparse(a) for a in c.args] == [gp, v] for st in loop.body for c in ast.walk(st))
                         yields = any(isinstance(y, ast.Yield) and y.value is not None and isinstance(y.value, ast.Tuple) and len(y.value.elts) == 2 and ast.unparse(y.value.elts[0]) == v and ast.unparse(y.value.elts[1]) == f"getattr({gp}, {v})" for st in loop.body for y in ast.walk(st))
                         # the names looped over come from the constructor's signature
-                        src = [n.value for n in ast.walk(f.node) if isinstance(n, (ast.Assign, ast.AnnAssign)) and any(isinstance(tg, ast.Name) and tg.id == loop.iter.id for tg in (n.targets if isinstance(n, ast.Assign) else [n.target])) and n.value is not None]
+                        src = _assigned_values(prog, f, loop.iter.id)
                         from_sig = any(isinstance(c, ast.Call) and (prog.resolve_expr_name(f.module, c.func) or "").rsplit(".", 1)[-1] in ("safe_get_params", "signature", "cached_signature") for sv in src for c in ast.walk(sv))
                         if guarded and yields and from_sig:
                             ok = True
@@ -650,14 +672,14 @@ def fields_the_instance_answers_to(prog, rep, rule="R18.13"):
     # (b) a declared slot is read only where the value has it
     n_slot, unguarded = 0, 0
     for name in ("_iterfields",):
-        g = P.nested_function(prog, f, name)
+        g = P.nested_function(prog, f, name) or prog.functions.get(f"{f.module.name}.{name}")  # (a closure, or hoisted to module level)
         if g is None:
             continue
         for n in ast.walk(g.node):
             if isinstance(n, (ast.GeneratorExp, ast.ListComp)) and isinstance(n.elt, ast.Tuple) and len(n.elt.elts) == 2 and isinstance(n.elt.elts[1], ast.Call) and ast.unparse(n.elt.elts[1].func) == "getattr":
                 n_slot += 1
                 v = ast.unparse(n.generators[0].target)
-                gp = g.node.args.args[0].arg
+                gp = ast.unparse(n.elt.elts[1].args[0]) if n.elt.elts[1].args else g.node.args.args[0].arg  # (the object the attribute is read off)
                 if not any(isinstance(c, ast.Call) and ast.unparse(c.func) == "hasattr" and [ast.unparse(a) for a in c.args] == [gp, v] for cond in n.generators[0].ifs for c in ast.walk(cond)) and len(n.elt.elts[1].args) < 3:
                     unguarded += 1
     if n_slot:
